@@ -519,6 +519,30 @@ def run_asyncio(case, res):
             if len(rec.shutdowns) != 1:
                 res.violation("repeated-shutdown-propagated", "asyncio: repeated shutdown reached the base")
             res.key("asyncio", wait)
+            # an executor without a configured loop, shut down, then used from a thread that has no event loop
+            rec2 = RecordingExecutor(ME.Executors.sync(), "base2")
+            ex2 = ME.Executors.with_asyncio(rec2)
+            ctx.own(rec2)
+            ex2.shutdown(wait)
+            box = {}
+
+            def late():
+                try:
+                    ex2.submit(lambda: 3)
+                    box["r"] = "accepted"
+                except BaseException as e:
+                    box["r"] = e
+            a = ctx.actor("L", late).go()
+            drive([a], timeout=10)
+            r = box.get("r")
+            res.execs += 1
+            if r == "accepted":
+                res.violation("submit-after-shutdown-accepted", "asyncio (no loop configured): submit after shutdown accepted")
+            elif not (isinstance(r, RuntimeError) and str(r) == MSG):
+                res.violation("submit-after-shutdown-message", "asyncio (no loop configured, caller thread without event loop): submit() after shutdown raised %r" % (r,))
+            if rec2.submits:
+                res.violation("submit-after-shutdown-reached-delegate", "asyncio: the delegate received a submit after shutdown")
+            res.key("asyncio-noloop", wait)
         finally:
             loop.close()
             end(ctx)
